@@ -1,6 +1,7 @@
 import ChythonModel.Proofs.C11Meta
 import ChythonModel.Proofs.C11Record
 import ChythonModel.Proofs.C11RdfFrame
+import ChythonModel.Proofs.C11V3000
 import ChythonModel.Spec.CtfileData
 /-!
 # C11 — SD data items: read ∘ write = the documented normalisation, for raw (padded, blank-line containing) values and
@@ -686,5 +687,134 @@ theorem rdfChunkLines_noFmt (k v : Str) (vs : List Str) (hv : ∀ x ∈ vs, firs
     rw [List.append_assoc, startsWith_append_of_le _ _ _ (by decide), startsWith_append_of_le _ _ _ (by decide)]; decide
   · subst h
     exact not_fmt_of_not_dollar x ['\n'] (hv x hx) (Or.inl (by decide))
+
+/-! ## V3000 SD records: the `M  END` of the block is found whatever data follow -/
+
+theorem not_mend_of_v30 (x : Str) : isMEnd (sL "M  V30 " ++ x) = false := by
+  unfold isMEnd
+  rw [startsWith_append_of_le _ _ _ (by decide)]; decide
+
+theorem writeMol3000_notMEnd (mapping : Bool) (g : WMol) (ls : List Str) (hw : writeMol3000 mapping g = .ok ls) :
+    ∀ l ∈ ls, isMEnd l = false := by
+  unfold writeMol3000 at hw
+  simp only [bind, Except.bind] at hw
+  cases hwl : mapM' (writeWedge3 g.atoms) (enumFrom 1 g.wedge) with
+  | error e => rw [hwl] at hw; cases hw
+  | ok wl =>
+    rw [hwl] at hw
+    simp only at hw
+    cases hbl : mapM' (writeBond3 g.atoms)
+        (enumFrom (g.wedge.length + 1) ((bondsIter g.atoms []).filter fun b => !inWedge g.wedge b.1 b.2.1)) with
+    | error e => rw [hbl] at hw; cases hw
+    | ok bl =>
+      rw [hbl] at hw
+      simp only [pure, Except.pure, Except.ok.injEq] at hw
+      subst hw
+      have hW : ∀ l ∈ wl, isMEnd l = false := by
+        apply mapM'_all (P := fun l => isMEnd l = false) hwl
+        intro p l hl
+        obtain ⟨i, n, m, s⟩ := p
+        simp only [writeWedge3, bind, Except.bind] at hl
+        cases h1 : bondOrder g.atoms n m with
+        | error e => rw [h1] at hl; cases hl
+        | ok o =>
+          rw [h1] at hl
+          cases h2 : atomIndex g.atoms n with
+          | error e => rw [h2] at hl; cases hl
+          | ok a =>
+            rw [h2] at hl
+            cases h3 : atomIndex g.atoms m with
+            | error e => rw [h3] at hl; cases hl
+            | ok b =>
+              rw [h3] at hl
+              simp only [pure, Except.pure, Except.ok.injEq] at hl
+              subst hl
+              simp only [List.append_assoc]
+              exact not_mend_of_v30 _
+      have hB : ∀ l ∈ bl, isMEnd l = false := by
+        apply mapM'_all (P := fun l => isMEnd l = false) hbl
+        intro p l hl
+        obtain ⟨i, n, m, o⟩ := p
+        simp only [writeBond3, bind, Except.bind] at hl
+        cases h2 : atomIndex g.atoms n with
+        | error e => rw [h2] at hl; cases hl
+        | ok a =>
+          rw [h2] at hl
+          cases h3 : atomIndex g.atoms m with
+          | error e => rw [h3] at hl; cases hl
+          | ok b =>
+            rw [h3] at hl
+            simp only [pure, Except.pure, Except.ok.injEq] at hl
+            subst hl
+            simp only [List.append_assoc]
+            exact not_mend_of_v30 _
+      intro l hl
+      simp only [List.mem_append] at hl
+      rcases hl with ((((hl | hl) | hl) | hl) | hl) | hl
+      · simp only [List.mem_cons, List.not_mem_nil, or_false] at hl
+        rcases hl with h | h | h
+        · subst h; decide
+        · subst h; simp only [List.append_assoc]; exact not_mend_of_v30 _
+        · subst h; decide
+      · simp only [List.mem_map] at hl
+        obtain ⟨p, _, h⟩ := hl
+        subst h; unfold writeAtom3; simp only [List.append_assoc]; exact not_mend_of_v30 _
+      · simp only [List.mem_cons, List.not_mem_nil, or_false] at hl
+        rcases hl with h | h <;> subst h <;> decide
+      · exact hW l hl
+      · exact hB l hl
+      · simp only [List.mem_cons, List.not_mem_nil, or_false] at hl
+        rcases hl with h | h <;> subst h <;> decide
+
+/-- the block `ESDFWrite.write` emits before the data items, followed by arbitrary lines: `__m_end` is its own `M  END` -/
+theorem esdf_mend_any_data (mapping : Bool) (g : WMol) (ls ml : List Str) (hw : writeMol3000 mapping g = .ok ls)
+    (hname : isMEnd (g.name ++ sL "\n") = false) :
+    firstMEnd (v3Header g.name ++ ls ++ sL "M  END\n" :: ml) = some ((v3Header g.name ++ ls).length + 1) := by
+  apply firstMEnd_block
+  intro l hl
+  simp only [List.mem_append] at hl
+  rcases hl with h | h
+  · simp only [v3Header, List.mem_cons, List.not_mem_nil, or_false] at h
+    rcases h with h | h | h | h
+    · subst h; exact hname
+    · subst h; decide
+    · subst h; decide
+    · subst h; decide
+  · exact writeMol3000_notMEnd mapping g ls hw l h
+
+/-! ## outside the domain: a value line starting with `$$$$` ends the record there -/
+
+theorem readBlockGo_anysep (bufSize : Nat) (sep : Str) (hsep : isSep sep = true) (rest : List Str) :
+    ∀ (b : List Str) (n : Nat) (buf : List Str), (∀ l ∈ b, isSep l = false) → n + b.length ≤ bufSize →
+      readBlockGo bufSize n buf (firstMEnd buf) (b ++ sep :: rest) = .ok (⟨buf ++ b, firstMEnd (buf ++ b)⟩, rest) := by
+  intro b
+  induction b with
+  | nil =>
+    intro n buf _ _
+    simp [readBlockGo, hsep, pure, Except.pure]
+  | cons l ls ih =>
+    intro n buf hs hn
+    have hl : isSep l = false := hs l (by simp)
+    have hne : (n == bufSize) = false := by
+      simp only [List.length_cons] at hn
+      simp only [beq_eq_false_iff_ne, ne_eq]; omega
+    simp only [List.cons_append, readBlockGo, hl, hne, Bool.false_eq_true, if_false]
+    rw [← firstMEnd_snoc]
+    have := ih (n + 1) (buf ++ [l]) (fun x hx => hs x (by simp [hx])) (by simp only [List.length_cons] at hn; omega)
+    simpa [List.append_assoc] using this
+
+/-- `_read_block` stops at the first line starting with `$$$$`, wherever it stands: the record is `b`, and everything
+    after that line (the rest of the value, the real delimiter) is left for the next record -/
+theorem readBlock_cut_at_sep (bufSize : Nat) (b : List Str) (sep : Str) (rest : List Str) (hsep : isSep sep = true)
+    (h : WFBlock bufSize b) : readBlock bufSize (b ++ sep :: rest) = .ok (⟨b, firstMEnd b⟩, rest) := by
+  unfold readBlock
+  have := readBlockGo_anysep bufSize sep hsep rest b 0 [] h.noSep (by simpa using h.fits)
+  have h0 : firstMEnd ([] : List Str) = none := rfl
+  rw [h0] at this
+  simp only [List.nil_append] at this
+  rw [this]
+  cases hb : b with
+  | nil => exact absurd hb h.ne
+  | cons _ _ => rfl
 
 end ChythonModel.Proofs.C11
